@@ -131,6 +131,14 @@ def C01(ctx):
     record_and_validate(ctx, [("machine_%d" % i, ["record", "machine", "--seed", ctx.seed * 1000 + 700 + i, "--segments", 6 if ctx.quick else 12,
                                                   "--len", 40 if ctx.quick else 60, "--nmax", 3 + (i % 2)])
                               for i in range(4 if ctx.quick else 16 * TH)], "TraceMachine", "TraceMachine.cfg")
+    # spec -> impl for BddMachine: every 2-call history of the machine (first call from a sampled class of ite triples, then any of ite /
+    # cond / exists / xor over the store's pointers) replayed into a FRESH real builder: printed truth table (L1), printed diagram and
+    # recursion counter after every call (drift)
+    for o in (["O10"] if ctx.quick else ["O10", "O01"]):
+        cfg = mkcfg(ctx, "GenMachine_%s.cfg" % o, "SPECIFICATION GSpec\nCONSTANTS\n  NV = 2\n  Ord <- %s\n  Slots = 0\n  MaxNodes = 9\n  MaxCache = 9\n  Cnfs <- NoCnfs\n"
+                    "  Ops <- AllOps\n  GetIgnoresCompl = FALSE\n  GetIgnoresKey = FALSE\n  Depth = 2\n  Sample = %d\n  Seed = %d\nCHECK_DEADLOCK FALSE\n"
+                    % (o, 4 if ctx.quick else 1, ctx.seed % 4 if ctx.quick else 0))
+        gen_and_replay(ctx, "GenMachine", cfg, "machine", "every 2-call history of BddMachine (2 variables, order %s) in a fresh cache-everything builder" % o, timeout=900)
     stress_canonical(ctx, "bdd", check="fn")
 
 
